@@ -229,8 +229,141 @@ func closureRows(pi *pkgInfo, ci callbackInfo) []accessRow {
 			fn = ci.Fn
 		}
 		rows = append(rows, accessRow{Field: encl + "." + v.Name(), Write: writes[id], Fn: fn, File: ci.File,
-			Line: fset.Position(id.Pos()).Line})
+			Line: fset.Position(id.Pos()).Line, pos: id.Pos()})
 		return true
 	})
 	return rows
+}
+
+// ---- which verdict an access outside the callback runs under -----------------
+//
+// State written by a per-response callback is handed to the function that issued the query through the query's
+// verdict: worker (callback, then result) -> dispatcher -> error channel -> caller.  That chain exists for the
+// SUCCESS verdict only; an error verdict (timeout, retry limit, shutdown) is sent while a worker may still be
+// inside the callback.  An access outside the callback is therefore ordered with the callback's writes only if it
+// is made
+//   * before the query is issued (position before the `.Query(` call of the function), or
+//   * after the verdict has been received and found nil: behind a statement `if <err> != nil { ...; return }`
+//     (condition exactly that comparison, body ending in return) that is the first statement of the select case
+//     receiving `<err> := <-errChan`, every other case of that select ending in return.
+// Everything else is listed as unguarded.
+
+type verdictShape struct {
+	queryPos   token.Pos // position of the X.Query(...) call (0: none)
+	guardEnd   token.Pos // accesses after this position in the verdict case are behind the nil check
+	selectEnd  token.Pos // accesses after this position are behind the select
+	filtering  bool      // the select lets only the nil verdict through
+	hasVerdict bool
+}
+
+func endsInReturn(list []ast.Stmt) bool {
+	if len(list) == 0 {
+		return false
+	}
+	_, ok := list[len(list)-1].(*ast.ReturnStmt)
+	return ok
+}
+
+func verdictShapeOf(fd *ast.FuncDecl) verdictShape {
+	var vs verdictShape
+	ast.Inspect(fd.Body, func(n ast.Node) bool {
+		switch v := n.(type) {
+		case *ast.CallExpr:
+			if se, ok := v.Fun.(*ast.SelectorExpr); ok && se.Sel.Name == "Query" && vs.queryPos == 0 {
+				vs.queryPos = v.Pos()
+			}
+		case *ast.SelectStmt:
+			if vs.hasVerdict {
+				return true
+			}
+			var verdict *ast.CommClause
+			errName := ""
+			others := true
+			for _, c := range v.Body.List {
+				cc := c.(*ast.CommClause)
+				if as, ok := cc.Comm.(*ast.AssignStmt); ok && len(as.Lhs) == 1 && len(as.Rhs) == 1 {
+					if u, ok := as.Rhs[0].(*ast.UnaryExpr); ok && u.Op == token.ARROW {
+						if id, ok := as.Lhs[0].(*ast.Ident); ok && verdict == nil {
+							verdict, errName = cc, id.Name
+							continue
+						}
+					}
+				}
+				if !endsInReturn(cc.Body) {
+					others = false
+				}
+			}
+			if verdict == nil {
+				return true
+			}
+			vs.hasVerdict = true
+			vs.selectEnd = v.End()
+			vs.guardEnd = token.NoPos
+			if len(verdict.Body) > 0 {
+				if is, ok := verdict.Body[0].(*ast.IfStmt); ok && is.Init == nil && is.Else == nil && endsInReturn(is.Body.List) {
+					if be, ok := is.Cond.(*ast.BinaryExpr); ok && be.Op == token.NEQ && src(be.X) == errName && src(be.Y) == "nil" {
+						vs.guardEnd = is.End()
+						vs.filtering = others
+					}
+				}
+			}
+		}
+		return true
+	})
+	return vs
+}
+
+// unguardedAccesses lists the rows, outside the callbacks, on state a callback writes, that may run under an
+// error verdict.
+func unguardedAccesses(rows []accessRow, cbs []callbackInfo) []accessRow {
+	cbFn := map[string]bool{}
+	for _, cb := range cbs {
+		cbFn[cb.Fn] = true
+	}
+	written := map[string]bool{}
+	for _, r := range rows {
+		if r.Write && cbFn[r.Fn] {
+			written[r.Field] = true
+		}
+	}
+	pi := loadPkg("")
+	if pi == nil {
+		return nil
+	}
+	decl := map[string]*ast.FuncDecl{}
+	for _, f := range pi.files {
+		for _, d := range f.Decls {
+			if fd, ok := d.(*ast.FuncDecl); ok && fd.Body != nil {
+				decl[funcName(pi, fd)] = fd
+			}
+		}
+	}
+	shapes := map[string]verdictShape{}
+	var out []accessRow
+	for _, r := range rows {
+		if !written[r.Field] || cbFn[r.Fn] {
+			continue
+		}
+		fd := decl[r.Fn]
+		if fd == nil || r.pos == token.NoPos {
+			out = append(out, r)
+			continue
+		}
+		vs, ok := shapes[r.Fn]
+		if !ok {
+			vs = verdictShapeOf(fd)
+			shapes[r.Fn] = vs
+		}
+		switch {
+		case vs.queryPos != 0 && r.pos < vs.queryPos:
+			// before the query is issued: the callback cannot have run yet
+		case vs.hasVerdict && vs.guardEnd != token.NoPos && r.pos >= vs.guardEnd && r.pos < vs.selectEnd:
+			// in the verdict case, behind the nil check
+		case vs.hasVerdict && vs.filtering && r.pos >= vs.selectEnd:
+			// behind a select that lets only the nil verdict through
+		default:
+			out = append(out, r)
+		}
+	}
+	return out
 }
